@@ -11,6 +11,7 @@ import TomlVerif.Driver.C03
 import TomlVerif.Driver.C16
 import TomlVerif.Driver.C19
 import TomlVerif.Driver.C06
+import TomlVerif.Driver.C13
 
 open TomlVerif
 
@@ -30,6 +31,8 @@ def dispatch (mode : String) (line : String) : String :=
   | "c16" => Driver.c16 line
   | "c19" => Driver.c19 line
   | "c06" => Driver.c06 line
+  | "c13" => Driver.c13 line
+  | "c17" => Driver.c17 line
   | "c06s" => Driver.c06s line
   | "c14" => Driver.c14 line
   | "cstsem" => Driver.cstSem line
